@@ -235,7 +235,7 @@ pub fn meta(_tier: Tier) -> Meta {
     Meta {
         id: "C10",
         level: "fault_enumeration",
-        rule: "history family: after every delivery of a 17-block five-epoch chain (txs, uncle, proposals, side blocks at heights 3,4,5,6,10,11,13 (3,4,11 compete with transaction-bearing main blocks)) a synchronous freeze pass runs on the freezing node; the full query battery (every getter the property names, for every block, tx and cell; store and snapshot) is compared with a twin that never freezes; a restart is inserted after every pass that froze something. crash family: a child is killed at EVERY point of a freeze+wipe pass (freezer points before data / between data and index / before fsync, and every database batch write), for the first pass (tip 12) and the second (tip 16); the parent re-opens, compares the battery, runs the next pass, extends the chain. non-trivial = comparisons made while at least one block is frozen; distinct = (family, tip or crash point).",
+        rule: "history family: after every delivery of a 17-block five-epoch chain (txs, uncle, proposals, side blocks at heights 3,4,5,6,10,11,13 (3,4,11 compete with transaction-bearing main blocks)) a synchronous freeze pass runs on the freezing node; the full query battery (every getter the property names, for every block, tx and cell; store and snapshot) is compared with a twin that never freezes; a restart is inserted after every pass that froze something. crash family: a child is killed at EVERY point of a freeze+wipe pass (freezer points before data / between data and index / before fsync, and every database batch write), for the first pass (tip 12) and the second (tip 16); the parent re-opens, compares the battery, runs the next pass, extends the chain. power-loss family: the child runs under an fsync-logging interposer with a 1500-byte data-file limit; every subset of unsynced freezer-file tails is lost at the crash points from the fsync on (thorough: all). I/O-error family: the n-th write(2) to the index file / the data files during the pass fails once with ENOSPC, for every n; a pass reporting success is followed by three more passes in the same process, one reporting an error ends freezing for that process; restart; judged like a crash image. non-trivial = comparisons made while at least one block is frozen; distinct = (family, tip or crash point).",
         assumptions: &["flat world, 4-block epochs", "process-crash model", "answers about side-chain blocks at frozen heights are exempt (the statement says they are removed)"],
         bounds: json!({"chain_length": CHAIN_LEN, "crash_points": "all of pass 1 and pass 2", "restarts": "after every pass that froze"}),
     }
